@@ -231,7 +231,7 @@ def _discharge(chk, ex, name, prop_, ins, inputs, rp, describe, extra, k):
 def run(chk):
     quick = chk.tier == 'quick'
     P = (chk.prop, chk.tier)
-    K = 2 if quick else 4
+    K = 2 if quick else 5
     cases = []
     for k in range(0, K + 1):
         for n_arr in range(1, K + 2):
